@@ -138,7 +138,12 @@ def run_case(case, ctx, bm):
             viol("ik.invariance", "ik_invariance/" + state, err=e)
     # ---- FK inverts IK inside the workspace ----
     neutral = model.B @ model.neutral_rel()
-    for rel in case["rels"]:
+    rels = list(case["rels"])
+    bal = balanced_pose(model, g, rels[0])
+    if bal is not None:
+        rels.append(bal)
+        ctx.cls("pose:first_newton_step_sums_to_zero")
+    for rel in rels:
         X = model.B @ se3.taa_to_T(rel)
         try:
             sp.IK(top_plate_pos=tm(neutral.copy()), bottom_plate_pos=tm(model.B.copy()), protect=True)
@@ -184,6 +189,34 @@ def run_case(case, ctx, bm):
                 where = "reset_to_neutral" if (nd <= 1e-6 * h and na <= 1e-6) else "wrong_pose"
                 viol(clause, "fk_miss/mode%d/%s/%s/%s" % (mode, state, where, "valid" if v2 else "invalid"),
                      pos_err_over_h=dist / h, rot_err=ang, len_err_over_h=le / h, published_pos_err_over_h=dist2 / h, rel=rel)
+
+
+def balanced_pose(model, g, rel):
+    """A relative pose near `rel` for which the FIRST Newton update from the neutral pose has components that cancel (their signed
+    sum is ~0): the input class on which a convergence test written on the signed sum stops at once.  The one-iteration update is
+    probed with the library's own kernel on the model's plate-fixed joints (input generation only - the verdict stays with the oracle)."""
+    try:
+        from basic_robotics.general import faser_high_performance as hp
+        bjr, tjr = np.ascontiguousarray(np.asarray(model.bj, dtype=float).T), np.ascontiguousarray(np.asarray(model.tj, dtype=float).T)      # as spun so far
+        n6 = np.array([0.0, 0.0, model.h, 0.0, 0.0, 0.0])
+        r = np.array(rel, dtype=float)
+
+        def ssum(r6):
+            L, _, _ = model.lengths(np.eye(4), se3.taa_to_T(r6))
+            out, _ = hp.SPFKinSpaceR(np.asarray(L, dtype=float).reshape(6).copy(), n6.copy(), bjr, tjr, 1, 0.0, 0.0, float(g["lmin"]))
+            return float(np.sum(np.asarray(out, dtype=float).reshape(6) - n6))
+        for _ in range(5):
+            s0 = ssum(r)
+            if abs(s0) < 2e-7:
+                return r.tolist()
+            r2 = r.copy()
+            r2[2] -= s0
+            s1 = ssum(r2)
+            slope = (s1 - s0) / (-s0) if s0 != 0 else 1.0
+            r[2] -= s0 / slope if abs(slope) > 0.2 else s0
+        return None
+    except Exception:
+        return None
 
 
 def run_shard(spec, ctx):
